@@ -1315,7 +1315,16 @@ func (lunar *Lunar) GetDayNineStar() *NineStar {
 	} else if strings.Compare(solarYmd, solarShunBaiYmd2) >= 0 {
 		offset = lunar.solar.Subtract(solarShunBai2) % 9
 	} else if strings.Compare(solarYmd, solarShunBaiYmd) < 0 {
-		offset = (8 + solarShunBai.Subtract(lunar.solar)) % 9
+		// 年初、冬至最近的甲子日之前，仍属上一年夏至起的阴遁，从上一年夏至最近的甲子日起逆数（二者未必相隔180天）
+		prevXiaZhi := NewSolarFromJulianDay(NewLunarYear(lunar.solar.GetYear() - 1).GetJieQiJulianDays()[13])
+		prevXiaZhiIndex := LunarUtil.GetJiaZiIndex(prevXiaZhi.GetLunar().GetDayInGanZhi())
+		prevNiZi := prevXiaZhi
+		if prevXiaZhiIndex > 29 {
+			prevNiZi = prevXiaZhi.NextDay(60 - prevXiaZhiIndex)
+		} else {
+			prevNiZi = prevXiaZhi.NextDay(-prevXiaZhiIndex)
+		}
+		offset = 8 - (lunar.solar.Subtract(prevNiZi) % 9)
 	}
 	return NewNineStar(offset)
 }
